@@ -45,6 +45,8 @@ class Stats:
     time_capped: bool = False
     fingerprints: set[Any] = field(default_factory=set)
     tags: dict[str, int] = field(default_factory=dict)
+    diverged: int = 0  # prefix replays whose enabled set differed from the recorded one (the code under test is not deterministic)
+    divergence: str = ""
 
     def merge(self, o: "Stats") -> None:
         self.executions += o.executions
@@ -61,6 +63,8 @@ class Stats:
         if len(self.samples) < 6:
             self.samples.extend(o.samples[: 6 - len(self.samples)])
         self.time_capped = self.time_capped or o.time_capped
+        self.diverged += o.diverged
+        self.divergence = self.divergence or o.divergence
         self.fingerprints |= o.fingerprints
         self.states = len(self.fingerprints)
 
@@ -82,6 +86,10 @@ def _key(label: Any) -> str:
             k = _KEY_CACHE[t] = json.dumps(label, sort_keys=True, default=str)
         return k
     return json.dumps(label, sort_keys=True, default=str)
+
+
+class _Diverged(Exception):
+    pass
 
 
 class Explorer:
@@ -127,13 +135,15 @@ class Explorer:
                 if i < len(prefix):
                     if prefix_enabled is not None and i < len(prefix_enabled):
                         if en != prefix_enabled[i]:
-                            raise HarnessError(
+                            # The same choices led somewhere else: never a verdict by itself.  The branch is abandoned and counted;
+                            # a run that ends with divergences and without a violation is a harness error (see explore_parallel).
+                            raise _Diverged(
                                 "nondeterminism during prefix replay at step "
                                 f"{i}: enabled {en!r} != recorded {prefix_enabled[i]!r}"
                             )
                     choice = prefix[i]
                     if choice not in en:
-                        raise HarnessError(f"replay: label {choice!r} not enabled at step {i}: {en!r}")
+                        raise _Diverged(f"replay: label {choice!r} not enabled at step {i}: {en!r}")
                 else:
                     # default continuation: first label we can afford
                     choice = None
@@ -209,7 +219,12 @@ class Explorer:
                 st.time_capped = True
                 break
             pfx, pfx_en = stack.pop()
-            tr = self._run(pfx, pfx_en)
+            try:
+                tr = self._run(pfx, pfx_en)
+            except _Diverged as e:
+                st.diverged += 1
+                st.divergence = st.divergence or str(e)[:400]
+                continue
             if tr["violated"]:
                 st.violations.append(
                     {"choices": tr["labels"], "violated": tr["violated"], "observations": tr["obs"]}
@@ -320,6 +335,9 @@ def explore_parallel(
     for r in results:
         total.merge(r)
     total.tags["jobs"] = len(jobs)
+    if total.diverged and not total.violations:
+        # nothing may pass on top of executions that could not be replayed
+        raise HarnessError(f"{total.diverged} prefix replays diverged and no violation was found: {total.divergence}")
     return total
 
 
